@@ -14,6 +14,7 @@ RULE = ("(a) scripted-loop model checking (see C12) for the loop's share: lambda
 ASSUMPTIONS = ["a step accepted by the controller but vetoed by a filter policy is not a 'rejected step' (only 'iterate unchanged' is demanded there, see C12)",
                "the exact-control residual is recomputed by the dense reference with slack 1e-6 relative"]
 CASE_ALARM_S = 300
+TIMEOUT_IS_VIOLATION = "a solve with an iteration limit did not return"
 
 
 def run_table(tier, seed):
